@@ -581,7 +581,7 @@ func modeC12(thorough bool) {
 		par(n, func(i int) {
 			c := clients[i%len(clients)]
 			v := i / len(clients)
-			flag := []string{"", "fO", "fO", ""}[v]
+			flag := []string{"", "fO", "fP", ""}[v]
 			zone := []string{"z1", "z3"}[i%2]
 			name := fmt.Sprintf("%s.r0t60d0%s.%s.test.", uniq(), flag, zone)
 			var hdr map[string]string
